@@ -523,17 +523,21 @@ def kani_concrete_values(cfg, feature, harness, timeout):
     return tests, out
 
 
-def build_replay(profile_release, binname="replay"):
+def build_replay(profile_release, binname="replay", feature="all"):
     ws = ensure_ws("daon", "native")
     with WsLock(ws):
         force_rebuild_if_repo_changed(ws)
-        cmd = ["cargo", "build", "--offline", "--features", "all", "--bin", binname]
+        cmd = ["cargo", "build", "--offline", "--features", feature, "--bin", binname]
         if profile_release:
             cmd.append("--release")
         rc, out = sh(cmd, cwd=ws)
         if rc != 0:
             return None, out
-        return os.path.join(ws, "target", "release" if profile_release else "debug", binname), out
+        built = os.path.join(ws, "target", "release" if profile_release else "debug", binname)
+        # private copy: another check may rebuild the binary with different features
+        priv = os.path.join(tempfile.gettempdir(), "verif-bin-%d-%s-%s" % (os.getpid(), binname, "rel" if profile_release else "dbg"))
+        shutil.copy(built, priv)
+        return priv, out
 
 
 def run_replay(binary, harness, vals, timeout=120):
